@@ -414,6 +414,65 @@ theorem total_limit_whole_shards (nShards totalMax : Nat) (counts : Nat → Nat)
   · exact Or.inl h
   · exact Or.inr ⟨h.1, by rw [← h3]; exact h.2⟩
 
+/-! ### the dispatch/receive loop makes progress in every iteration
+
+`streamSearch` calls `proc.Yield(ctx)` at the top of every iteration and ignores its error ("we let searchOneShard
+handle context errors"): whether Yield succeeds, blocks for a while or fails because the context is done, the iteration
+goes on to the `select`, i.e. to exactly one `dispatch` or `recv` event of this model.  Hence the number of iterations
+is bounded by twice the number of shards — the loop cannot spin, in particular not once the context is done and Yield
+fails on every call.  (The harness drives the real loop into exactly those states: time slice used up, batch queue
+full, context done while queued / with results pending.) -/
+
+theorem ssStep_progress (nShards totalMax : Nat) (counts : Nat → Nat) (s s' : SS) (e : Ev)
+    (hs : ssStep nShards totalMax counts s e = some s') :
+    s'.next + s'.sent.length = s.next + s.sent.length + 1 := by
+  cases e with
+  | dispatch =>
+    simp only [ssStep] at hs
+    split at hs
+    · simp at hs
+    · simp only [Option.some.injEq] at hs
+      split at hs <;> (subst hs; simp only; omega)
+  | recv i =>
+    simp only [ssStep] at hs
+    split at hs
+    · simp at hs
+    · simp only [Option.some.injEq] at hs
+      subst hs
+      simp only [List.length_append, List.length_cons, List.length_nil]
+      omega
+
+theorem ssRun_progress (nShards totalMax : Nat) (counts : Nat → Nat) (es : List Ev) : ∀ (s s' : SS),
+    ssRun nShards totalMax counts s es = some s' →
+    s'.next + s'.sent.length = s.next + s.sent.length + es.length := by
+  induction es with
+  | nil => intro s s' hs; simp only [ssRun, Option.some.injEq] at hs; subst hs; simp
+  | cons e es ih =>
+    intro s s' hs
+    simp only [ssRun] at hs
+    cases hstep : ssStep nShards totalMax counts s e with
+    | none => rw [hstep] at hs; simp at hs
+    | some s1 =>
+      rw [hstep] at hs
+      simp only [Option.bind_some] at hs
+      have h1 := ssStep_progress _ _ _ _ _ _ hstep
+      have h2 := ih s1 s' hs
+      simp only [List.length_cons]
+      omega
+
+/-- **the search loop terminates**: every run of the loop — under every interleaving, every limit and however often
+    Yield fails — has at most `2 * nShards` iterations -/
+theorem loop_iterations_bounded (nShards totalMax : Nat) (counts : Nat → Nat) (es : List Ev) (s : SS)
+    (hrun : ssRun nShards totalMax counts {} es = some s) : es.length ≤ 2 * nShards := by
+  have h0 : SSInv nShards totalMax counts {} := ⟨by simp, by simp, by simp, by simp⟩
+  obtain ⟨h1, h2, _, _⟩ := ssRun_inv _ _ _ es {} s h0 hrun
+  have hp := ssRun_progress _ _ _ es {} s hrun
+  have hlen := h1.length_eq
+  simp only [List.length_append, List.length_range] at hlen
+  simp only [List.length_nil, Nat.zero_add] at hp
+  have : ({} : SS).next + ({} : SS).sent.length = 0 := rfl
+  omega
+
 /-! ### non-vacuity -/
 
 def exDocs : List Doc :=
